@@ -130,10 +130,20 @@ def do_query(w, q, tmpdir):
             for cl, c in cs:
                 if c is None:
                     out.append(None)
-                else:
-                    xy = np.asarray(c.xy_points) if hasattr(c, "xy_points") else np.asarray([c[0], c[1]])
+                elif getattr(c, "xy_points", None) is not None:
+                    xy = np.asarray(c.xy_points)
                     out.append([xy[0].min(), xy[0].max(), xy[1].min(), xy[1].max()])
-            return np.asarray(out, dtype=float)
+                else:
+                    # grid contour (scipy backend): the drawn line is the level sigma of grid_z
+                    import contourpy
+
+                    lines = contourpy.contour_generator(np.asarray(c.grid_x), np.asarray(c.grid_y), np.asarray(c.grid_z).T).lines(float(c.sigma))
+                    if not lines:
+                        out.append(None)
+                    else:
+                        xy = np.asarray(max(lines, key=len)).T
+                        out.append([xy[0].min(), xy[0].max(), xy[1].min(), xy[1].max()])
+            return np.asarray([[np.nan] * 4 if o is None else o for o in out], dtype=float)
         if q == "band":
             if w.ftype != "xy":
                 return None
